@@ -416,6 +416,27 @@ fn no_drop_fn_case(rep: &mut Report) {
     drop(unsafe { Box::from_raw(g as *const Guarded as *mut Guarded) });
 }
 
+/// handles destroyed while their thread unwinds are released like any other
+fn panic_drop_case(rep: &mut Report) {
+    let a = Arc::new(Tracked::new());
+    let weak = Arc::downgrade(&a);
+    let root: CArc<Tracked> = CArc::from(a);
+    let (c1, c2) = (root.clone(), root.clone().transpose().expect("non-empty"));
+    let before = weak.strong_count();
+    let r = std::panic::catch_unwind(std::panic::AssertUnwindSafe(move || {
+        let _hold = (c1, c2);
+        let inner = std::thread::spawn(move || 0u8).join().unwrap();
+        if inner == 0 { panic!("provoked: unwinding with live handles"); }
+    }));
+    let after = weak.strong_count();
+    if r.is_ok() || before != 3 || after != 1 {
+        rep.violation("C10:count-after-unwind", &format!("two handles dropped by an unwinding scope: strong count {} before, {} after (want 3 and 1)", before, after), "");
+    }
+    drop(root);
+    if weak.strong_count() != 0 { rep.violation("C10:count-after-unwind", "value still referenced after the last handle", ""); }
+    rep.add("unwind_drop_cases", 1);
+}
+
 fn rep_no_drop_once() -> bool { static ONCE: AtomicU64 = AtomicU64::new(0); ONCE.fetch_add(1, Ordering::SeqCst) % 64 == 0 }
 
 fn forged_history(rng: &mut Rng, len: usize, rep: &mut Report) {
@@ -805,7 +826,7 @@ pub fn run(args: &Args, rep: &mut Report) {
             let len = 1 + rng.below(60);
             forged_history(&mut rng, len, rep);
             rep.add("forged_histories", 1);
-            if rep_no_drop_once() { no_drop_fn_case(rep); }
+            if rep_no_drop_once() { no_drop_fn_case(rep); panic_drop_case(rep); }
         }
     }
     if mode == "all" || mode == "concurrent" {
